@@ -28,6 +28,8 @@ import JanetModel.Lib.Boot6Proofs
 import JanetModel.Lib.Boot7Proofs
 import JanetModel.Lib.Boot8Proofs
 import JanetModel.Lib.MiscC2Proofs
+import JanetModel.Lib.Boot9Proofs
+import JanetModel.Lib.Boot10Proofs
 namespace JanetModel.Props.C17
 open JanetModel.Lib JanetModel.Gen.Lib
 
@@ -580,5 +582,21 @@ theorem mirror_new_filled_push_pop {α : Type} [Inhabited α] (count byte : Int)
 
 example : BufPush.contents (BufPush.pushWord { data := #[7], count := 1 } [258, -1, 3]).1 = [7, 2, 1, 0, 0] ∧
     BufPush.reverseU32 #[1, 2, 3, 4] = .ok #[4, 3, 2, 1] ∧ ArrC.pushC [1] [2, 3] = .ok [1, 2, 3] := by decide
+
+/-- `flatten` / `flatten-into`: the leaves in left-to-right order for every nesting (the mirror's recursion fuel only has
+    to exceed the nesting depth); `reverse!`: the in-place two-index swap loop `(while (< i (-- j)) …)` reverses for every
+    length with no `in` / `put` outside the array; `merge` / `merge-into` over collections with distinct keys: later
+    collections win, `(in c key)` always finds the key it was given by the `:keys` iteration -/
+theorem boot_flatten_reverse_merge {α κ β : Type} [BEq κ] [LawfulBEq κ] (fuel : Nat) (xs : List (Boot.Nest α))
+    (hf : Boot.depthList xs < fuel) (t : List α) (tab : List (κ × β)) (colls : List (List (κ × β)))
+    (hnd : ∀ c ∈ colls, (c.map (·.1)).Nodup) :
+    Boot.flatten fuel xs = .ok (Boot.flatList xs) ∧ Boot.reverseBang t = .ok t.reverse ∧
+    Boot.mergeInto tab colls = .ok (colls.foldl (fun acc c => c.foldl (fun acc kv => assocPut acc kv.1 kv.2) acc) tab) ∧
+    Boot.merge colls = .ok (merge colls) :=
+  ⟨Boot.flatten_eq_spec fuel xs hf, Boot.reverseBang_eq_spec t, Boot.mergeInto_eq_spec tab colls hnd,
+   Boot.merge_eq_spec colls hnd⟩
+
+example : Boot.flatten 3 [.leaf 1, .node [.leaf 2, .node [.leaf 3]]] = .ok [1, 2, 3] ∧
+    Boot.reverseBang [1, 2, 3, 4] = .ok [4, 3, 2, 1] ∧ Boot.merge [[(1, 10)], [(1, 11), (2, 20)]] = .ok [(1, 11), (2, 20)] := by decide
 
 end JanetModel.Props.C17
